@@ -1,5 +1,6 @@
 """Translator: the small pure functions of mistletoe/core_tokens.py (flanking predicates,
-follows, is_control_char, Delimiter.closed_by) -> Gen/GenCore.v.  Reads the SOURCE TEXT of
+follows, is_control_char, Delimiter.closed_by) -> Gen/GenCore.v, and span_tokenizer.relation
+-> Gen/GenSpan.v.  Reads the SOURCE TEXT of
 /repo with the Python `ast` module and emits one Gallina definition per function; fails
 closed (raises) on any statement or expression shape it does not know.  The hand-written
 model (Model/CoreTokens.v) is then PROVED equal to these definitions (Proofs/CoreRegen.v), so
@@ -19,18 +20,21 @@ class Unknown(Exception):
 CHARSETS = {'punctuation': 'is_punct', 'unicode_whitespace': 'is_uws', 'whitespace': 'is_ws'}
 # argument names -> (Coq name, sort)
 ARGS = {'start': ('start', 'Z'), 'end': ('end_', 'Z'), 'index': ('index', 'Z'), 'string': ('s', 'str'),
-        'charset': ('charset', 'Z -> bool'), 'char': ('char', 'Z'), 'self': ('self', 'delim'), 'other': ('other', 'delim')}
+        'charset': ('charset', 'Z -> bool'), 'char': ('char', 'Z'), 'self': ('self', 'delim'), 'other': ('other', 'delim'),
+        'x': ('x', 'cand'), 'y': ('y', 'cand')}
 FUNCS = ['preceded_by', 'succeeded_by', 'is_left_delimiter', 'is_right_delimiter', 'is_opener', 'is_closer',
          'is_control_char', 'follows']
-ATTRS = {'open': ('d_open', 'bool'), 'close': ('d_close', 'bool'), 'orig_number': ('d_orig', 'Z'), 'number': ('d_number', 'Z'),
-         'start': ('d_start', 'Z'), 'end': ('d_end', 'Z'), 'active': ('d_active', 'bool')}
+ATTRS = {'delim': {'open': ('d_open', 'bool'), 'close': ('d_close', 'bool'), 'orig_number': ('d_orig', 'Z'), 'number': ('d_number', 'Z'),
+                   'start': ('d_start', 'Z'), 'end': ('d_end', 'Z'), 'active': ('d_active', 'bool')},
+         'cand': {'start': ('cs', 'Z'), 'end': ('ce', 'Z'), 'parse_start': ('ps', 'Z'), 'parse_end': ('pe', 'Z')}}
 
 
 class Tr:
     """expressions are translated with their sort: 'Z' (integers and characters), 'bool', 'str', 'set'"""
 
-    def __init__(self, fname, args):
+    def __init__(self, fname, args, ret='bool'):
         self.fname = fname
+        self.ret = ret
         self.env = {}
         for a in args:
             if a not in ARGS:
@@ -118,8 +122,10 @@ class Tr:
                 self.fail(e, 'unknown subscript')
             return '(char_at %s %s)' % (t, self.z(e.slice)), 'Z'
         if isinstance(e, ast.Attribute):
-            if isinstance(e.value, ast.Name) and e.value.id in ('self', 'other') and e.value.id in self.env and e.attr in ATTRS:
-                return '(%s %s)' % (ATTRS[e.attr][0], self.env[e.value.id][0]), ATTRS[e.attr][1]
+            if isinstance(e.value, ast.Name) and e.value.id in self.env and self.env[e.value.id][1] in ATTRS \
+                    and e.attr in ATTRS[self.env[e.value.id][1]]:
+                acc, srt = ATTRS[self.env[e.value.id][1]][e.attr]
+                return '(%s %s)' % (acc, self.env[e.value.id][0]), srt
             self.fail(e, 'unknown attribute')
         if isinstance(e, ast.Call) and isinstance(e.func, ast.Name) and not e.keywords:
             f = e.func.id
@@ -144,30 +150,38 @@ class Tr:
             self.fail(e, 'unknown function')
         self.fail(e)
 
-    def block(self, stmts):
-        """a block that ends in a return on every path -> one Gallina expression of sort bool"""
+    def block(self, stmts, k=None):
+        """a block that ends in a return on every path -> one Gallina expression; k = the statements that follow the
+        enclosing block, run when this one falls off its end (an `if` without `else` whose body does not return)"""
         if not stmts:
-            raise Unknown('%s: a path falls off the end of the function' % self.fname)
+            if k is None:
+                raise Unknown('%s: a path falls off the end of the function' % self.fname)
+            return self.block(k[0], k[1])
         st, rest = stmts[0], stmts[1:]
         if isinstance(st, ast.Expr) and isinstance(st.value, ast.Constant) and isinstance(st.value.value, str):
-            return self.block(rest)
+            return self.block(rest, k)
         if isinstance(st, ast.Return):
             if st.value is None:
                 raise Unknown('%s: bare return' % self.fname)
-            return self.b(st.value)
-        if isinstance(st, ast.If) and not st.orelse:
-            return '(if %s then %s else %s)' % (self.b(st.test), self.block(st.body), self.block(rest))
+            t, srt = self.expr(st.value)
+            if srt != self.ret:
+                self.fail(st.value, 'returns a value of sort %s, expected %s' % (srt, self.ret))
+            return t
         if isinstance(st, ast.If):
-            if rest:
-                raise Unknown('%s: statements after an if/else' % self.fname)
-            return '(if %s then %s else %s)' % (self.b(st.test), self.block(st.body), self.block(st.orelse))
+            test = self.b(st.test)
+            saved = dict(self.env)
+            yes = self.block(st.body, (rest, k))
+            self.env = dict(saved)
+            no = self.block(st.orelse, (rest, k)) if st.orelse else self.block(rest, k)
+            self.env = saved
+            return '(if %s then %s else %s)' % (test, yes, no)
         if isinstance(st, ast.Assign) and len(st.targets) == 1 and isinstance(st.targets[0], ast.Name):
             nm = st.targets[0].id
             if nm in self.env or nm in CHARSETS or nm in SIGS:
                 raise Unknown('%s: assignment to %s shadows a known name' % (self.fname, nm))
             t, s = self.expr(st.value)
             self.env[nm] = (nm, s)
-            return '(let %s := %s in %s)' % (nm, t, self.block(rest))
+            return '(let %s := %s in %s)' % (nm, t, self.block(rest, k))
         raise Unknown('%s: unknown statement %s' % (self.fname, ast.dump(st)[:120]))
 
 
@@ -233,8 +247,28 @@ def generate():
     out.append('(* core_tokens.Delimiter.closed_by *)')
     out.append('Definition g_closed_by (self other : delim) : bool :=\n  %s.' % tr.block(cb.body))
     out.append('')
-    return {'GenCore.v': '\n'.join(out) + '\n'}
+    return {'GenCore.v': '\n'.join(out) + '\n', 'GenSpan.v': generate_span()}
+
+
+def generate_span():
+    path = os.path.join(REPO, 'mistletoe', 'span_tokenizer.py')
+    tree = ast.parse(open(path, encoding='utf8').read())
+    top = {n.name: n for n in tree.body if isinstance(n, ast.FunctionDef)}
+    if 'relation' not in top:
+        raise Unknown('function relation not found in span_tokenizer.py')
+    f = top['relation']
+    a = f.args
+    if [x.arg for x in a.args] != ['x', 'y'] or a.vararg or a.kwarg or a.kwonlyargs or a.defaults or f.decorator_list:
+        raise Unknown('relation: unknown signature')
+    tr = Tr('relation', ['x', 'y'], ret='Z')
+    return '\n'.join(['(* GENERATED from mistletoe/span_tokenizer.py by harness/gen/gen_core.py -- do not edit *)',
+                      'From Coq Require Import ZArith List Bool.',
+                      'From Mistletoe Require Import Model.SpanTokenizer.',
+                      'Local Open Scope Z_scope.', '',
+                      '(* span_tokenizer.relation: 0 x precedes y, 1 x intersects y, 2 x contains y, 3 ignore y *)',
+                      'Definition g_relation (x y : cand) : Z :=\n  %s.' % tr.block(f.body), ''])
 
 
 if __name__ == '__main__':
-    print(generate()['GenCore.v'])
+    for k, v in generate().items():
+        print(v)
